@@ -61,6 +61,11 @@ def check(model: Model, rep: Report, tier: str):
         h6(model, rep, cg)
     with rep.isolated():
         h8(model, rep, cg)
+    from .c04 import duration_rule
+    with rep.isolated():
+        share_rule(rep, model, duration_rule, "C03.H9", "the duration of a block is the span of its operations whatever frame their times are reported in: listing a circuit hands "
+                   "nested blocks their link, after which their operations report absolute instead of block-relative times -- a span computed from a fixed origin (0) instead of "
+                   "the earliest start gives a different duration after the listing was read (= C04.D1/D2)")
     with rep.isolated():
         h7(model, rep, cg, ef, keep=lambda f: "/structure/" in f.module.relpath.replace("\\", "/") or "/language/" in f.module.relpath.replace("\\", "/"))
     rep.analysed["call graph"] = dict(cg.res.stats)
@@ -840,14 +845,44 @@ def _fresh_self(cg: CallGraph, path: List[FunctionInfo]) -> bool:
 def h3(model: Model, rep: Report):
     rep.rule("C03.H3", "temporary_override_get_registry_at / clear_lru_cache: the restoring statement sits in a finally reached on every exit "
                        "and restores the value read from the same location on entry (a local bound before the override)")
-    f = model.function("registry_duration", "temporary_override_get_registry_at")
     construct = "temporary_override_get_registry_at"
+    C = model.maybe_cls("temporary_override_get_registry_at")
+    if C is not None and "__enter__" in C.methods and "__exit__" in C.methods:
+        # class form of the context manager: __enter__ installs, __exit__ must put back on EVERY way out (an exception included)
+        en, ex = C.methods["__enter__"][0], C.methods["__exit__"][0]
+        eve = Evaluator(model, inline_methods=False)
+        try:
+            pe_, px_ = PathEnumerator(eve).function_paths(en, self_cls=C), PathEnumerator(eve).function_paths(ex, self_cls=C)
+        except Unsupported as e:
+            raise AnalysisError(f"{construct}: {e}")
+        inst = [e.term for p in pe_ for e in p.events if e.kind == "store" and e.term[1][0] == "cls"]
+        if not inst:
+            raise AnalysisError(f"{construct}.__enter__: the override store was not found")
+        loc_o = (inst[0][1], inst[0][2])
+        n_x = 0
+        for p in px_:
+            if p.exit not in ("return", "fall"):
+                continue
+            n_x += 1
+            back = [e.term for e in p.events if e.kind == "store" and (e.term[1], e.term[2]) == loc_o]
+            rep.check(bool(back), "C03.H3", construct + "[restore on every exit]", ex.loc, found=f"path [{show(p.cond)[:80]}]: " + ("restores" if back else "leaves the override installed"),
+                      required="__exit__ reinstalls the saved getter whether or not the block raised",
+                      what=f"when [{show(p.cond)[:80]}] the override stays installed after the block: every later duration and time is computed with the abandoned settings", detail="no-finally")
+            if back:
+                saved = back[-1][3]
+                from_self = bool(subterms(saved, lambda y: y[0] == "attr" and y[1] == sym(ex.self_name)))
+                rep.check(from_self, "C03.H3", construct + "[restores-entry-value]", ex.loc, found=show(saved)[:100], required="the getter saved by __enter__ on this object",
+                          what="leaving the override does not reinstall what was active when it was entered", detail="restore-value")
+        rep.floor("exit paths of the class-form override", n_x, 1)
+        f = None
+    else:
+        f = model.function("registry_duration", "temporary_override_get_registry_at")
     ev = Evaluator(model, inline_methods=False)
     try:
-        ps = PathEnumerator(ev).function_paths(f)
+        ps = PathEnumerator(ev).function_paths(f) if f is not None else []
     except Unsupported as e:
         raise AnalysisError(f"{construct}: {e}")
-    n = 0
+    n = 0 if f is not None else 1
     for p in ps:
         n += 1
         evs = flat_events(p) if False else p.events
